@@ -237,6 +237,7 @@ def _valid_value(kind):
 
 def cases(tier):
     yield ("decl",)
+    yield ("names",)
     for libset in ("csv", "netcdf"):
         for cmd in sorted(SIG.table(libset)):
             for name, kind, req in SIG.table(libset)[cmd]["params"] + [("Metadata", "Tuple", False)]:
@@ -567,7 +568,7 @@ def _run_edited(case):
         executed = sorted({r for _, r in _LOG})
         new_files = sorted(set(os.listdir(work)) - before)
         for f_ in new_files:
-            os.remove(os.path.join(work, f_))
+            snapshot.remove_path(os.path.join(work, f_))
         return out, executed, new_files
 
     try:
@@ -753,8 +754,70 @@ def _kind_matches(kind, par, P):
     return False
 
 
+NAMES = ["Slope Pct", "Elev.m", "2020", "Slope-Pct", "a,b", "caf\u00e9", "class", "x y z", "A+B", "_", "9lives", "T"]
+
+
+def _run_names():
+    """result names are whatever the user (or the header of a data file) says: every name of NAMES as the result of a reader built through
+    the API, consumed by name and by object; and as the field name of an EEMS 2.0 READ / a quoted reference - a well-formed model is accepted"""
+    from mpilot.exceptions import MPilotError
+    from mpilot.program import Program
+
+    work = _setup_dir("csv")
+    viols, outcomes = [], {}
+    evals = 0
+    sample = None
+    try:
+        for nm in NAMES:
+            import csv as _csv
+
+            with open(os.path.join(work, "names.csv"), "w", newline="") as f:
+                w = _csv.writer(f)
+                w.writerow([nm, "other"])
+                for r in ((10, 5), (8, 2), (7, 3)):
+                    w.writerow(r)
+            variants = []
+            # API: the name is the result name of a reader; one consumer names it, one holds the command object
+            def api():
+                p = Program(libraries=CSV, working_dir=work)
+                lib = p.command_library
+                p.add_command(lib["EEMSRead"], nm, {"InFileName": "names.csv", "InFieldName": nm})
+                p.add_command(lib["Copy"], "byname", {"InFieldName": nm})
+                p.add_command(lib["Sum"], "byobject", {"InFieldNames": [p.commands[nm], p.commands[nm]]})
+                return p
+            variants.append(("api", api))
+            # EEMS 2.0 text: the field name becomes the result name
+            text = G.render(G.items_of([(None, "READ", [("InFileName", ("q", "names.csv")), ("InFieldName", ("q", nm))]),
+                                        (None, "COPYFIELD", [("InFieldName", ("q", nm)), ("NewFieldName", ("bare", "Copied"))])]))[0]
+            variants.append(("eems2", lambda text=text: Program.from_source(text, libraries=CSV, working_dir=work)))
+            for how, build in variants:
+                evals += 1
+                tag = {"result_name": nm, "built": how, "text": text if how == "eems2" else None}
+                sample = tag
+                try:
+                    with contextlib.redirect_stdout(io.StringIO()), numpy.errstate(all="ignore"):
+                        p = build()
+                        p.run()
+                    ok = all(c.is_finished for c in p.commands.values()) and nm in p.commands
+                    if not ok:
+                        viols.append(V("C12:names:not-all-finished:%s" % how, "model with the result name %r ran but %r" % (nm, sorted(p.commands)), **tag))
+                    outcomes["names:%s:accepted" % how] = outcomes.get("names:%s:accepted" % how, 0) + 1
+                except MPilotError as exc:
+                    viols.append(V("C12:names:rejected-wellformed:%s:%s" % (how, type(exc).__name__), "well-formed model with the result name %r rejected: %s" % (nm, str(exc).split("\n")[0][:150]), **tag))
+                except SyntaxError as exc:
+                    outcomes["names:%s:syntax-error" % how] = outcomes.get("names:%s:syntax-error" % how, 0) + 1
+                except Exception as exc:
+                    viols.append(V("C12:names:raw-exception:%s" % type(exc).__name__, "model with the result name %r raised %r" % (nm, exc), **tag))
+    finally:
+        import shutil
+        shutil.rmtree(work, ignore_errors=True)
+    return {"evals": evals, "nontrivial": evals, "judged": evals, "viols": viols[:20], "outcomes": outcomes, "sample": sample}
+
+
 def run(case):
     case = tuple(case)
+    if case[0] == "names":
+        return _run_names()
     if case[0] == "decl":
         return _run_decl()
     if case[0] == "matrix":
